@@ -79,7 +79,9 @@ static void xq_pre(void)
     V_ASSUME(in_tbl.used <= NSRV);
     srv[0] = in_tbl.present[0] ? mk_srv(in_srv0.refs, in_srv0.type, in_srv0.configured, in_srv0.name) : NULL;
     srv[1] = in_tbl.present[1] ? mk_srv(in_srv1.refs, in_srv1.type, in_srv1.configured, in_srv1.name) : NULL;
+#if NSRV > 2
     srv[2] = in_tbl.present[2] ? mk_srv(in_srv2.refs, in_srv2.type, in_srv2.configured, in_srv2.name) : NULL;
+#endif
     for (i = 0; i < NSRV; i++) {
         if (i >= in_tbl.used) srv[i] = NULL;
         vec_store[i] = srv[i];
@@ -91,8 +93,10 @@ static void xq_pre(void)
     }
     /* service names are distinct (iauth_xquery_config_service keeps one entry per name) */
     if (srv[0] && srv[1]) V_ASSUME(strcmp(srv[0]->name, srv[1]->name) != 0);
+#if NSRV > 2
     if (srv[0] && srv[2]) V_ASSUME(strcmp(srv[0]->name, srv[2]->name) != 0);
     if (srv[1] && srv[2]) V_ASSUME(strcmp(srv[1]->name, srv[2]->name) != 0);
+#endif
     iauth_xquery_services.vec = vec_store;
     iauth_xquery_services.used = in_tbl.used;
     iauth_xquery_services.size = NSRV;
@@ -210,7 +214,7 @@ void h_xq_x_reply(void)
     if (!awaited) {
         /* C04: every other reply produces no output and no difference in any later behaviour */
         V_ASSERT(quiet(), "C04: a reply that is stale, malformed or not awaited produces no output");
-        V_ASSERT(G.live && req_same() && cli_same() && srv_same(0) && srv_same(1) && srv_same(2),
+        V_ASSERT(G.live && req_same() && cli_same() && srv_same(0) && srv_same(1) && srv_same(NSRV - 1),
                  "C04: a reply that is stale, malformed or not awaited changes nothing");
     } else {
         int ok = !in_unlinked && rp[0] == 'O' && rp[1] == 'K' && (rp[2] == '\0' || rp[2] == ' ');
@@ -256,5 +260,107 @@ void h_xq_x_reply(void)
         for (i = 0; i < NSRV; i++)
             if (i != who) V_ASSERT(srv_same(i), "C07: a reply touches only the answering service's record");
     }
+    V_CANARY();
+}
+
+/* ======================================================= query builder (C06, C02, C03) */
+static int prereq_ok(int type)
+{
+    /* C06: password for login; also hostname result and ident for login-ipr; hostname result,
+     * ident, nick and user info for dronecheck and combined (hurry-up makes all of these known) */
+    unsigned need;
+    unsigned F = req0.flags.bits[0];
+    switch (type) {
+    case LOGIN: need = 1u << IAUTH_GOT_PASSWORD; break;
+    case LOGIN_IPR: need = (1u << IAUTH_GOT_PASSWORD) | (1u << IAUTH_GOT_HOSTNAME) | (1u << IAUTH_GOT_IDENT); break;
+    default: need = (1u << IAUTH_GOT_HOSTNAME) | (1u << IAUTH_GOT_IDENT) | (1u << IAUTH_GOT_NICK) | (1u << IAUTH_GOT_USER_INFO); break;
+    }
+    return (need & ~F) == 0;
+}
+
+/* expected user name: ident, else the claimed name marked '~', at most USERLEN bytes */
+static void spec_username(char out[12])
+{
+    unsigned i;
+    for (i = 0; i < 12; i++) out[i] = 0;
+    if (req0.auth_username[0] != '\0') {
+        for (i = 0; i < USERLEN && req0.auth_username[i]; i++) out[i] = req0.auth_username[i];
+    } else if (req0.cli_username[0] == '~') {
+        for (i = 0; i < USERLEN && req0.cli_username[i]; i++) out[i] = req0.cli_username[i];
+    } else if (req0.cli_username[0] != '\0') {
+        out[0] = '~';
+        for (i = 0; i + 1 < USERLEN && req0.cli_username[i]; i++) out[i + 1] = req0.cli_username[i];
+    }
+}
+
+void h_xq_check(void)
+{
+    unsigned i, k, expect_total = 0, first_due = NSRV;
+    int due[NSRV];
+    char want_user[12];
+    const char *hostname;
+    xq_pre();
+    V_IN(in_flag);
+    V_ASSUME(in_flag >= 0 && in_flag < IAUTH_NUM_FLAGS);
+    snapshot();
+    for (i = 0; i < NSRV; i++) {
+        struct iauth_xquery_service *s = (i < iauth_xquery_services.used) ? srv[i] : NULL;
+        due[i] = s && s->configured
+            && !((cli->sent_mask & (1u << i)) && (in_flag != IAUTH_GOT_PASSWORD || s->type == DRONECHECK))
+            && !((s->type == LOGIN || s->type == LOGIN_IPR) && !cli->password[0])
+            && prereq_ok(s->type);
+        if (due[i]) {
+            if (first_due == NSRV) first_due = i;
+            expect_total += ((s->type == DRONECHECK || s->type == COMBINED) ? 1 : 0)
+                          + ((cli->password[0] && s->type != DRONECHECK) ? 1 : 0);
+        }
+    }
+    spec_username(want_user);
+    hostname = req->hostname[0] ? req->hostname : req->text_addr;
+
+    if (in_flag == IAUTH_GOT_USER_INFO)
+        iauth_xquery_user_info(req);
+    else
+        iauth_xquery_check(req, (enum iauth_flags)in_flag);
+
+    V_ASSERT(G.live && G.msgs == 0 && G.verdicts == 0 && G.gate_evals == 0 && G.kills == 0,
+             "C01/C03: a data hook of a decision module sends queries only - it never decides or retires the client");
+    V_ASSERT(G.queries == expect_total, "C06: each configured service is queried exactly when its protocol's data is known - not earlier, not skipped, not twice");
+    for (k = 0; k < 8; k++) {
+        if (k < G.queries) {
+            unsigned who = NSRV;
+            for (i = 0; i < NSRV; i++) if (srv[i] && G.query_server[k] == srv[i]->name) who = i;
+            V_ASSERT(who < NSRV && due[who], "C06: a query goes only to a service that is due");
+            if (who < NSRV) {
+                int t = srv[who]->type;
+                if (G.query_verb[k] == 'C') {
+                    V_ASSERT(t == DRONECHECK || t == COMBINED, "C06: CHECK goes to drone-check type services");
+                    V_ASSERT(G.query_arg[k][0] == req->nickname && G.query_arg[k][2] == req->text_addr && G.query_arg[k][3] == hostname && G.query_arg[k][4] == req->realname,
+                             "C06: CHECK carries this client's nick, address, host name (or address) and real name");
+                    V_ASSERT(bytes_eq(G.query_user[k], want_user, 12), "C06: the user name is the ident, else the claimed name marked ~, within USERLEN");
+                } else if (G.query_verb[k] == 'L') {
+                    V_ASSERT(t == LOGIN || t == COMBINED, "C06: LOGIN goes to login / combined services");
+                    V_ASSERT(G.query_arg[k][0] == cli->password && cli->password[0] != '\0', "C06: LOGIN carries this client's credentials");
+                } else {
+                    V_ASSERT(G.query_verb[k] == '2' && t == LOGIN_IPR, "C06: LOGIN2 goes to login-ipr services");
+                    V_ASSERT(G.query_arg[k][0] == req->text_addr && G.query_arg[k][1] == hostname && G.query_arg[k][3] == cli->password,
+                             "C06: LOGIN2 carries this client's address, host name and credentials");
+                    V_ASSERT(bytes_eq(G.query_user[k], want_user, 12), "C06: the user name is the ident, else the claimed name marked ~, within USERLEN");
+                }
+            }
+        }
+    }
+    for (i = 0; i < NSRV; i++) {
+        unsigned bit = 1u << i;
+        if (due[i]) {
+            V_ASSERT((cli->ref_mask & bit) && (cli->sent_mask & bit), "C02: a queried service is awaited");
+            V_ASSERT(srv[i]->refs == srv0[i].refs + 1 && srv[i]->queries == srv0[i].queries + 1, "C10: per-service counters advance by one");
+        } else {
+            V_ASSERT((cli->ref_mask & bit) == (cli0.ref_mask & bit) && (cli->sent_mask & bit) == (cli0.sent_mask & bit) && srv_same(i),
+                     "C06/C07: a service that is not due is not touched");
+        }
+    }
+    V_ASSERT(inv_ok(req, cli), "C02/C03: hold counters stay consistent with what is awaited (INV)");
+    V_ASSERT(req->holds == req0.holds && req->flags.bits[0] == req0.flags.bits[0], "C02: the query builder neither takes nor releases hard holds");
     V_CANARY();
 }
